@@ -24,8 +24,51 @@ let hexf (x : Float64.t) : string =
 
 let triple ((a, b), c) = Printf.sprintf "%s %s %s" (hexf a) (hexf b) (hexf c)
 
+(* ---- relkt / relkc / relkv: the quantifier of C16 on the helices the library produced -------------------------
+   Case line  <tag> <n> <payload: w tokens per item>*n | <k> <x0 y0 z0 r phi0 h>*k   (w = 3, for relkv 8).
+   The trailer lists the helices the library fitted / attached to the primary vertex (harness/phys/src/c16.rs writes
+   it and re-checks it on replay).  A helix outside the quantifier (centre within +-3 m, radius 0.03-5 m,
+   |pitch| <= 1e2 m, all parameters finite) is an explicit outcome: `skipped out-of-domain <bound>` with the bound of
+   the FIRST such track, the first violated bound in the order below -- the same predicate, on the same bit patterns,
+   as `domain_bound` of the harness.  Otherwise `holds` (the oracle itself runs on the implementation only). *)
+let raw (s : string) : float = Int64.float_of_bits (Int64.of_string ("0x" ^ s))
+let finite (x : float) = match classify_float x with FP_nan | FP_infinite -> false | _ -> true
+let domain_bound x0 y0 z0 r phi0 h : string option =
+  if not (List.for_all finite [ x0; y0; z0; r; phi0; h ]) then Some "nonfinite-params"
+  else if r < 0.0 then Some "negative-radius"
+  else if r < 0.03 then Some "radius<0.03m"
+  else if r > 5.0 then Some "radius>5m"
+  else if abs_float x0 > 3.0 || abs_float y0 > 3.0 || abs_float z0 > 3.0 then Some "centre"
+  else if abs_float h > 1e2 then Some "pitch"
+  else None
+
+let rec drop n l = if n <= 0 then Some l else match l with [] -> None | _ :: t -> drop (n - 1) t
+
+let trailer_obs (w : int) (n : string) (rest : string list) : string =
+  let is_hex s = String.length s = 16 && String.for_all (fun c -> (c >= '0' && c <= '9') || (c >= 'a' && c <= 'f')) s in
+  match int_of_string_opt n with
+  | None -> "bad-case"
+  | Some n when n < 0 -> "bad-case"
+  | Some n -> (
+      match drop (w * n) rest with
+      | Some ("|" :: k :: hs) -> (
+          match int_of_string_opt k with
+          | Some k when k >= 0 && List.length hs = 6 * k && List.for_all is_hex hs ->
+              let rec first = function
+                | x0 :: y0 :: z0 :: r :: phi0 :: h :: t -> (
+                    match domain_bound (raw x0) (raw y0) (raw z0) (raw r) (raw phi0) (raw h) with
+                    | Some b -> "skipped out-of-domain " ^ b
+                    | None -> first t)
+                | _ -> "holds"
+              in
+              first hs
+          | _ -> "bad-case")
+      | _ -> "bad-case")
+
 let handle (line : string) : string =
   match String.split_on_char ' ' line with
+  | ("relkt" | "relkc") :: n :: rest -> trailer_obs 3 n rest
+  | "relkv" :: n :: rest -> trailer_obs 8 n rest
   | tag :: _ when String.length tag >= 3 && String.sub tag 0 3 = "rel" -> "holds"
   | [ "kt"; tol; iters; x0; y0; z0; r; phi0; h; pr; pphi; pz; tq ] ->
       let (t, a), b =
@@ -35,13 +78,14 @@ let handle (line : string) : string =
           (fbits tq)
       in
       Printf.sprintf "ok %s %s %s" (hexf t) (triple a) (triple b)
-  | "fit3" :: n :: rest ->
+  | (("fit3" | "cls14") as tag) :: n :: rest ->
       let rec pts = function
         | r :: phi :: z :: t -> mk_spoint (fbits r) (fbits phi) (fbits z) :: pts t
         | _ -> []
       in
       let l = pts rest in
       if List.length l <> int_of_string n then "bad-case"
+      else if tag = "cls14" then (if tinyphi_class glibc l then "tinyphi" else "ordinary")
       else (
         match n_to_int (fit3_outcome glibc l) with 0 -> "noinit" | 1 -> "track" | _ -> "panic")
   | _ -> "unknown-case"
